@@ -651,6 +651,19 @@ func runC16(c *an.Ctx) {
 		}
 		c.Floor("R2", "forward sites in "+an.FuncName(f), nf, 1)
 	}
+	// R3: the member coalescer keeps, per member, exactly the latest event of the
+	// quantum and reports it at most once (shared with C17.R2/R3): otherwise the
+	// last event an application sees for a member need not match its status.
+	c.Rule("R3 (shared with C17) the member coalescer's pending entry per member is always overwritten by the latest event and emitted at most once per flush")
+	sub := an.NewCtx(c.P, "C17", c.Tier)
+	runC17(sub)
+	for _, o := range sub.Obs {
+		if o.Rule == "R2" || o.Rule == "R3" {
+			o.Key = "R3|C17:" + o.Key
+			o.Rule = "R3"
+			c.Obs = append(c.Obs, o)
+		}
+	}
 	// coalescer Flush implementations forward synchronously too
 	for _, t := range []string{"memberEventCoalescer", "userEventCoalescer"} {
 		if f := c.P.Method(serf, t, "Flush"); f != nil {
